@@ -198,3 +198,12 @@ func lemmaDHCPPad(d *DHCP, tag byte, data []byte) (n1, size int, b1 []byte) {
 	n1, _ = d.Read(b1)
 	return
 }
+
+// thorough tier: the full IPv6 extension chain hop-by-hop (one option) -> routing -> fragment -> UDP
+func lemmaEthIPv6HRF(e *Ethernet, ip *IPv6, hel uint8, o *Option, r *RoutingHeader, f *FragmentHeader, u *UDP) (*Ethernet, error, []byte, []byte) {
+	ip.HbhHeader = &HopByHopHeader{NextHeader: Type_Routing, HEL: hel, Options: []*Option{o}}
+	ip.RoutingHeader, ip.FragmentHeader = r, f
+	ip.Data = u
+	e.Data = ip
+	return lemmaFrame(e)
+}
